@@ -419,3 +419,29 @@ def selfcheck():
     assert first_diff(canon((1, True)), canon((1, 1))) == ((1,), "type:bool->int")
     assert first_diff(canon([1]), canon((1,)))[1] == "type:list->tuple"
     assert first_diff(canon({"a": 1, "b": 2}), canon({"b": 2, "a": 1})) is None
+
+
+def extra_coverage(tier, results):
+    """Acceptance rate per feature class (programs): accepted / rejected statements carrying the feature."""
+    acc, rej = {}, {}
+    for r in results:
+        for k, v in r.get("labels", {}).items():
+            if k.startswith("acc:"):
+                acc[k[4:]] = acc.get(k[4:], 0) + v
+            elif k.startswith("rej:"):
+                rej[k[4:]] = rej.get(k[4:], 0) + v
+    table = {}
+    for f in sorted(set(acc) | set(rej)):
+        a, b = acc.get(f, 0), rej.get(f, 0)
+        table[f] = {"accepted": a, "rejected": b, "rate": round(a / (a + b), 3)}
+    bind = {}
+    for r in results:
+        for k, v in r.get("labels", {}).items():
+            if k.startswith("bind:"):
+                bind[k] = bind.get(k, 0) + v
+    other = {}
+    for r in results:
+        for k, v in r.get("labels", {}).items():
+            if not k.startswith(("acc:", "rej:", "bind:")):
+                other[k] = other.get(k, 0) + v
+    return {"acceptance_by_feature": table, "bind_labels": bind, "statement_labels": dict(sorted(other.items()))}
